@@ -310,10 +310,45 @@ def r23lex(ctx: Ctx) -> RuleReport:
                 'finditer', 'findall', 'search', 'match', 'scanner', 'fullmatch', 'split'):
             fcall = n
             break
+    scan_fi = fi
+    deleg = None
+    if fcall is None:
+        # the per-line scan may live in a generator helper: `yield from helper(line, lineno, regex)`
+        for n in ast.walk(outer):
+            if isinstance(n, ast.Call) and isinstance(n.func, ast.Name):
+                hs = [t.func for t in ctx.cg.resolve_call(n, fi) if t.kind == 'func' and t.func.module.name == fi.module.name]
+                if len(hs) == 1 and any(isinstance(x, ast.Call) and isinstance(x.func, ast.Attribute) and x.func.attr == 'finditer'
+                                        for x in walk_local(hs[0].node)):
+                    par = ctx.repo.parent_map(fi.node).get(id(n))
+                    if isinstance(par, ast.YieldFrom) or (isinstance(par, ast.For) and par.iter is n):
+                        deleg = (n, hs[0])
+        if deleg is not None:
+            call, h = deleg
+            amap = {}
+            for prm, a in zip(h.positional, call.args):
+                amap[prm] = norm(a)
+            for kw in call.keywords:
+                amap[kw.arg] = norm(kw.value)
+            inv = {v: k for k, v in amap.items()}
+            if v_i in inv and v_line in inv and p_regex in inv and not any(ctx.cg.local_assigns(h).get(x) for x in (inv[v_i], inv[v_line], inv[p_regex])):
+                scan_fi = h
+                rep.ok('_lex delegates the scan of a line to a helper that receives line, line number and pattern unchanged', fi.loc(call), norm(call))
+                deleg_stmt = call
+                v_i_h, v_line_h, p_regex_h = inv[v_i], inv[v_line], inv[p_regex]
+                for n in walk_local(h.node):
+                    if isinstance(n, ast.Call) and isinstance(n.func, ast.Attribute) and n.func.attr == 'finditer':
+                        fcall = n
+            else:
+                deleg = None
     if fcall is None or fcall.func.attr != 'finditer':
         rep.oblige('tokens are produced by finditer over the line', False,
-                   f'found {norm(fcall.func) if fcall else "no scan call"}', where, key='_lex finditer')
+                   f'found {norm(fcall.func) if fcall else "no scan call"}', where, key='_lex finditer', positive=fcall is not None)
         return rep
+    outer_fi, outer_cfg = fi, cfg
+    if deleg is not None:
+        fi = scan_fi
+        v_i, v_line, p_regex = v_i_h, v_line_h, p_regex_h
+        cfg = CFG(fi.node)
     recv = single_def(ctx, fi, fcall.func.value)
     rep.oblige('finditer is called on the regex argument', isinstance(recv, ast.Name) and recv.id == p_regex,
                norm(fcall.func.value), where, key='_lex finditer receiver')
@@ -323,18 +358,27 @@ def r23lex(ctx: Ctx) -> RuleReport:
                key='_lex finditer argument')
     # every outer iteration reaches the finditer call
     pm = ctx.repo.parent_map(fi.node)
-    st = fcall
+    opm = ctx.repo.parent_map(outer_fi.node)
+    st = fcall if deleg is None else deleg[0]
     while not isinstance(st, ast.stmt):
-        st = pm[id(st)]
-    head = cfg.node_of(outer)
-    target = cfg.node_of(st)
-    path = cfg.path_avoiding([(head, 'T')], {head, cfg.exit, cfg.rexit}, lambda nd: nd.id == target)
+        st = opm[id(st)]
+    head = outer_cfg.node_of(outer)
+    target = outer_cfg.node_of(st)
+    path = outer_cfg.path_avoiding([(head, 'T')], {head, outer_cfg.exit, outer_cfg.rexit}, lambda nd: nd.id == target)
     rep.oblige('every line reaches the scan (no line is skipped)', path is None,
                'a path returns to the loop head without scanning the line: ' +
-               ' -> '.join(repr(cfg.nodes[p]) for p in path) if path else '', where, key='_lex every line scanned')
+               ' -> '.join(repr(outer_cfg.nodes[p]) for p in path) if path else '', where, key='_lex every line scanned')
+    if deleg is not None:
+        # inside the helper the scan itself is reached on every path
+        fst = fcall
+        while not isinstance(fst, ast.stmt):
+            fst = pm[id(fst)]
+        ft = cfg.node_of(fst)
+        hp = cfg.path_avoiding([(cfg.entry, None)], {cfg.exit}, lambda nd: nd.id == ft)
+        rep.oblige('the helper scans the line it is given on every path', hp is None, '', fi.loc(), key='_lex helper scans')
     # inner loop over matches
     inner = None
-    for n in ast.walk(outer):
+    for n in (ast.walk(outer) if deleg is None else walk_local(fi.node)):
         if isinstance(n, ast.For) and n is not outer:
             itx = single_def(ctx, fi, n.iter)
             if itx is fcall:
@@ -401,7 +445,8 @@ def r23lex(ctx: Ctx) -> RuleReport:
     # variables not reassigned between definition and use
     for v in (v_i, v_line, v_m):
         n_defs = len(ctx.cg.local_assigns(fi).get(v, []))
-        rep.oblige(f'{v} is bound only by its loop', n_defs == 1, f'{n_defs} bindings', where, key=f'_lex {v} single binding')
+        want = 0 if (deleg is not None and v in (v_i, v_line)) else 1       # helper parameters are bound by the call
+        rep.oblige(f'{v} is bound only by its loop', n_defs == want, f'{n_defs} bindings', where, key=f'_lex {v} single binding')
     return rep
 
 
